@@ -559,7 +559,7 @@ func execC06(rc *harness.RunCtx, p *harness.Plan, cfg *Config, w *world, ops []O
 		if i < len(ops) && !ops[i].barrier() {
 			continue
 		}
-		cz.beginSegment(s.corpusOn)
+		cz.beginSegment(s.corpusOn, s.rows())
 		cz.sequential = oneClient(ops[start:i]) && !cz.pendingAtStart
 		for _, op := range ops[start:i] {
 			cz.noteDelivery(op, s.corpusOn)
@@ -731,7 +731,15 @@ func (c *c06Causes) noteDelivery(op Op, corpusOn bool) {
 // (by the model) can be completed during this segment; a live corpus - built
 // incrementally or scanned from rows that hold their partial meta row -
 // already knows the blob and will ignore the completed mutation.
-func (c *c06Causes) beginSegment(corpusOn bool) {
+//
+// rows are the index rows at the start of the segment. A delete claim that was
+// delivered and, by the rows, is committed partially only (a meta row, no
+// "|indexed" mark) is in that state whatever the dependency model says: the
+// recorded C05 finding (a delete claim waiting for its target is forgotten
+// across a restart) leaves claims like that although every dependency has
+// arrived since. A corpus that is live, or is scanned from these rows, knows
+// the blob and ignores its completion.
+func (c *c06Causes) beginSegment(corpusOn bool, rows map[string]string) {
 	c.sequential = false
 	c.pendingAtStart = false
 	ds := newDepState(c.w, c.segSeen)
@@ -744,7 +752,13 @@ func (c *c06Causes) beginSegment(corpusOn bool) {
 		return
 	}
 	for i, b := range c.w.b {
-		if c.w.item(i).K == "del" && c.segSeen[b.RefS] && ds.state(i) != 1 {
+		if c.w.item(i).K != "del" || !c.segSeen[b.RefS] {
+			continue
+		}
+		if ds.state(i) != 1 {
+			c.dupDel[b.RefS] = true
+		}
+		if _, meta := rows["meta:"+b.RefS]; meta && !strings.HasSuffix(rows["have:"+b.RefS], "|indexed") {
 			c.dupDel[b.RefS] = true
 		}
 	}
